@@ -3,6 +3,7 @@
 //! same requests from the model; `check` diffs the two.
 use std::io::{BufRead, Write};
 
+mod dispatch;
 mod misc;
 mod session;
 mod util;
@@ -59,6 +60,8 @@ fn handle(line: &str) -> String {
         "Z" => guarded(&|| misc::run_z(&toks[1..])),
         "VB" => guarded(&|| misc::run_vb(&toks[1..])),
         "TB" => guarded(&|| misc::run_tb(&toks[1..])),
+        "D" => guarded(&|| dispatch::run_d(&toks[1..])),
+        "T" => guarded(&|| dispatch::run_t(&toks[1..])),
         _ => "bad-request".into(),
     }
 }
